@@ -74,9 +74,11 @@ func formatValue(val any) string {
 	if mapVal, ok := val.(map[string]any); ok {
 		buffer.WriteString("{\n")
 
-		for key, value := range mapVal {
+		// keys are written in a defined order: the output must not depend on
+		// the iteration order of the map
+		orderedmap.FromMap(mapVal).Iterate(func(key string, value any) {
 			buffer.WriteString(fmt.Sprintf("\t%s: %s,\n", key, formatValue(value)))
-		}
+		})
 
 		buffer.WriteString("}")
 
